@@ -97,7 +97,9 @@ func gen(repo string, w *bytes.Buffer) error {
 	if !lsOK {
 		loopStart = 2
 	}
-	fmt.Fprintf(w, "Definition pad_loop_start : Z := %d%%Z.\n\n", loopStart)
+	fmt.Fprintf(w, "Definition pad_loop_start : Z := %d%%Z.\n", loopStart)
+	fmt.Fprintf(w, "(* verifyPKCS1v15: every statement of the body, normalised (the model Model/Pkcs1.v is its transcription). *)\n")
+	fmt.Fprintf(w, "Definition verify_body : list str := %s.\n\n", tutil.CoqTextList(funcBodyText(sig, "verifyPKCS1v15", &es)))
 
 	// ---- Attest ----------------------------------------------------------
 	chain, args := attestFacts(att, &es)
@@ -702,4 +704,123 @@ func modhexFacts(f *ast.File, es *errs) (mi modhexInfo) {
 		es.add("ModHex: `switch len(serial)` not found")
 	}
 	return
+}
+
+// funcBodyText renders every statement of a function body in a normalised
+// one-line form (independent of formatting and comments).
+func funcBodyText(f *ast.File, name string, es *errs) []string {
+	fd := tutil.FindFunc(f, name)
+	if fd == nil {
+		es.add("%s not found", name)
+		return nil
+	}
+	var out []string
+	for _, st := range fd.Body.List {
+		out = append(out, stmtText(st))
+	}
+	return out
+}
+
+func stmtText(s ast.Stmt) string {
+	switch x := s.(type) {
+	case nil:
+		return ""
+	case *ast.AssignStmt:
+		var l, r []string
+		for _, e := range x.Lhs {
+			l = append(l, exprText(e))
+		}
+		for _, e := range x.Rhs {
+			r = append(r, exprText(e))
+		}
+		return strings.Join(l, ",") + " " + x.Tok.String() + " " + strings.Join(r, ",")
+	case *ast.ExprStmt:
+		return exprText(x.X)
+	case *ast.IncDecStmt:
+		return exprText(x.X) + x.Tok.String()
+	case *ast.ReturnStmt:
+		var r []string
+		for _, e := range x.Results {
+			r = append(r, exprText(e))
+		}
+		return strings.TrimSpace("return " + strings.Join(r, ","))
+	case *ast.BlockStmt:
+		var b []string
+		for _, t := range x.List {
+			b = append(b, stmtText(t))
+		}
+		return "{ " + strings.Join(b, "; ") + " }"
+	case *ast.IfStmt:
+		t := "if "
+		if x.Init != nil {
+			t += stmtText(x.Init) + "; "
+		}
+		t += exprText(x.Cond) + " " + stmtText(x.Body)
+		if x.Else != nil {
+			t += " else " + stmtText(x.Else)
+		}
+		return t
+	case *ast.ForStmt:
+		init, post, cond := "", "", ""
+		if x.Init != nil {
+			init = stmtText(x.Init)
+		}
+		if x.Cond != nil {
+			cond = exprText(x.Cond)
+		}
+		if x.Post != nil {
+			post = stmtText(x.Post)
+		}
+		return "for " + init + "; " + cond + "; " + post + " " + stmtText(x.Body)
+	case *ast.SwitchStmt:
+		t := "switch "
+		if x.Init != nil {
+			t += stmtText(x.Init) + "; "
+		}
+		if x.Tag != nil {
+			t += exprText(x.Tag) + " "
+		}
+		return t + stmtText(x.Body)
+	case *ast.CaseClause:
+		var l []string
+		for _, e := range x.List {
+			l = append(l, exprText(e))
+		}
+		var b []string
+		for _, t := range x.Body {
+			b = append(b, stmtText(t))
+		}
+		h := "default:"
+		if x.List != nil {
+			h = "case " + strings.Join(l, ",") + ":"
+		}
+		return h + " " + strings.Join(b, "; ")
+	case *ast.DeclStmt:
+		if gd, ok := x.Decl.(*ast.GenDecl); ok {
+			var parts []string
+			for _, sp := range gd.Specs {
+				if vs, ok := sp.(*ast.ValueSpec); ok {
+					var ns, vsl []string
+					for _, n := range vs.Names {
+						ns = append(ns, n.Name)
+					}
+					for _, v := range vs.Values {
+						vsl = append(vsl, exprText(v))
+					}
+					t := gd.Tok.String() + " " + strings.Join(ns, ",")
+					if vs.Type != nil {
+						t += " " + exprText(vs.Type)
+					}
+					if len(vsl) > 0 {
+						t += " = " + strings.Join(vsl, ",")
+					}
+					parts = append(parts, t)
+				}
+			}
+			return strings.Join(parts, "; ")
+		}
+	case *ast.BranchStmt:
+		return x.Tok.String()
+	}
+	return fmt.Sprintf("<%T>", s)
 }
